@@ -31,6 +31,10 @@ CHECKS["C11"] = dict(
     text="Proved in Lean for every batch, mask pattern, permutation and split point: the mask-and-scatter idiom is an element-wise conditional; the batched tau-energy stage exactly as coded (three masks, sampler calls on selected sub-batches, 8192-element iterator chunks, scatter, scaling) equals the per-event function event by event for any scalar type, fails as a whole when an event fails, and per-event maps commute with permutations and splits; repeated calls: the only stateful stage (exit probability) is history independent (C05). Observed on the real code for all ten stages (geometry both modes, spectra, tau energy/exit probability, decay altitude, optical, radio, SNR) with random numbers fixed: permutation, split points (incl. around 8192), three repeated calls, single-event batches, and byte-comparison of every input array (found F6, fixed). PARTIAL: for stages other than tau energy the 'stage = per-event map' premise is observed, not proved.",
     ref="4 C11", technique="Lean 4 list theorems (scatter/select, chunking, batch = pointwise) + batch-model correspondence + metamorphic exploration of every stage of the real code")
 
+CHECKS["C14"] = dict(
+    text="Proved in Lean about the writer state machine that models compute()'s fixed stage sequence, for every flag combination and survivor count: every column has one entry per surviving trajectory, the exact ordered column set, the four integral keywords of each enabled channel, an empty but valid table for zero survivors, and the structural reason for channel isolation (the shower and integral stages draw nothing from the global generator and every stage a channel depends on precedes the other channel's stages, so stream offsets and upstream columns do not depend on the other flag). PARTIAL: bit-identity across dask schedulers, the values in the columns and channel isolation of the real run are explored on the real code: compute() over the configuration cross product under synchronous/threads/processes/PRNG-ordered exploring schedulers compared bit for bit, other-channel-off comparisons, structure against the model, cross-stage consistency relations evaluated by the Lean driver on the table's columns, zero-survivor runs, and measured per-stage generator draws against the model.",
+    ref="4 C14", technique="Lean 4 theorems on a writer/stream state-machine model + exploration of the real compute() under several schedulers incl. an order-exploring one")
+
 import glob
 for _f in sorted(glob.glob(str(VERIF / "harness" / "manifest_entries" / "*.json"))):
     CHECKS.update(json.load(open(_f)))
